@@ -105,7 +105,15 @@ func (m *mux) Handle(method, pattern string, handler http.HandlerFunc) {
 			ctx := context.WithValue(req.Context(), AcceptTypeKey, req.Header.Get("Accept"))
 			enc := ResponseEncoder(ctx, w)
 			w.WriteHeader(http.StatusNotFound)
-			enc.Encode(NewErrorResponse(ctx, fmt.Errorf("404 page not found"))) // nolint:errcheck
+			resp := NewErrorResponse(ctx, fmt.Errorf("404 page not found"))
+			if err := enc.Encode(resp); err != nil {
+				// The negotiated encoder cannot encode the error response (the
+				// text/plain and text/html encoder only handles strings): send
+				// the error message rather than an empty body.
+				if er, ok := resp.(*ErrorResponse); ok {
+					enc.Encode(er.Message) // nolint:errcheck
+				}
+			}
 		}))
 		m.middlewares = nil
 	}
